@@ -268,7 +268,14 @@ func (v *Verifier) verifyFunc(c *Contract) *FuncReport {
 		bad := false
 		for k := range x.rets {
 			rp := &x.rets[k]
+			// definitions emitted while evaluating the clause for this return point
+			// belong to its block (they may mention values defined only on its path)
+			if rp.blk != nil {
+				x.smt.curOwner = rp.blk.Index
+			}
+			x.reach = rp.reach
 			t, err := x.evalSpec(e.E, x.specEnvAt(nil, rp))
+			x.smt.curOwner = -1
 			if err != nil {
 				x.specError(e, err)
 				bad = true
